@@ -521,3 +521,6 @@ func verifReplayMain(path, out string) error {
 	}
 	return os.WriteFile(out, jb, 0644)
 }
+
+// VerifEntriesFor exports the alphabet for harnesses in other packages.
+func VerifEntriesFor(in *VInst, full bool) []VEntry { return vEntriesFor(in, full) }
